@@ -135,6 +135,13 @@ for g_ in ('SE3', 'RxSO3'):
                     Y = f(X)
                     env.eq(f'{tag} {nm}: input overwritten with the ordered fold', raw(X), ref)
                     env.eq(f'{tag} {nm}: returns the result', raw(Y), ref)
+                    # the same on a tensor that takes part in an autograd graph (a non-leaf that requires grad): in place means in place
+                    if env.sym:
+                        Xg = lie(pp, g, data.clone()); Xg.requires_grad = True
+                    else:
+                        Xg = lie(pp, g, data.clone().requires_grad_(True) * 1)
+                    Yg = f(Xg)
+                    env.eq(f'{tag} {nm}: a tensor that requires grad is overwritten too', raw(Xg).detach() if not env.sym else raw(Xg), ref)
     mk()
 
 
